@@ -146,6 +146,7 @@ class Gen:
         self.tag = 0
         self.depth = 0
         self.tern = 0          # the language has no ternary inside a ternary
+        self.scopes: T.List[T.Set[str]] = [set()]   # names defined for sure, per open block
 
     # -- helpers
     def p(self, x: float) -> bool:
@@ -156,6 +157,22 @@ class Gen:
 
     def vars_of(self, *types: str) -> T.List[str]:
         return [v for v, t in self.types.items() if t in types]
+
+    def define(self, name: str, ty: str) -> None:
+        """``name`` is assigned a value of static type ``ty`` here.  A name first assigned inside a block exists only
+        until the block ends (the block may not run); a re-assignment inside a block makes the type uncertain."""
+        if name not in self.types:
+            self.scopes[-1].add(name)
+            self.types[name] = ty
+        elif self.types[name] != ty:
+            self.types[name] = 'any' if (self.depth > 0 or ty == 'any') and ty in ('int', 'str', 'bool', 'any', 'dis') else ty
+
+    def push(self) -> None:
+        self.scopes.append(set())
+
+    def pop(self) -> None:
+        for name in self.scopes.pop():
+            self.types.pop(name, None)
 
     def newtag(self) -> int:
         self.tag += 1
@@ -276,7 +293,8 @@ class Gen:
         if c < 0.86 and cv:
             v = self.pick(cv)
             key, m = self.pick([('ks', 'get'), ('kq', 'get'), ('kq', 'get_unquoted'), ('ks', 'get_unquoted'), ('nope', 'get_unquoted')])
-            return Meth(Id(v), m, [Str(key), Str(self.pick(['dflt', '"qd"', '']))])
+            # the empty string makes get_unquoted crash (known finding): kept, but rare, so that programs get further
+            return Meth(Id(v), m, [Str(key), Str('' if self.p(0.04) else self.pick(['dflt', '"qd"']))])
         if c < 0.9 and cv:
             return Meth(Str('|'), 'join', [Meth(Id(self.pick(cv)), 'keys', [])])
         ev = self.vars_of('env')
@@ -310,16 +328,13 @@ class Gen:
         names = {'int': ['i1', 'i2'], 'str': ['s1', 's2'], 'bool': ['b1', 'b2']}[ty]
         x = self.pick(names)
         if self.p(0.12):
-            e = self.dis_expr() if self.p(0.6) else Arith('+' if ty != 'bool' else '==', Id(x) if x in self.types else self.scalar(ty), self.dis_expr())
+            e = self.dis_expr() if self.p(0.6) else Arith('+' if ty != 'bool' else '==', Id(x) if self.types.get(x) == ty else self.scalar(ty), self.dis_expr())
             if ty == 'bool':
                 e = Not(self.dis_expr())
-            self.types[x] = 'any'
+            self.define(x, 'any')
             return Assign(x, e)
         e = self.scalar(ty)
-        if self.types.get(x, ty) != ty or (nested and x not in self.types):
-            self.types[x] = 'any'
-        elif self.types.get(x) != 'any':
-            self.types[x] = ty
+        self.define(x, ty)
         return Assign(x, e)
 
     def cfg_stmt(self) -> Node:
@@ -327,14 +342,14 @@ class Gen:
         c = self.r.random()
         if not cv or c < 0.1:
             x = self.pick(['c', 'o'])
-            self.types[x] = 'cfg'
+            self.define(x, 'cfg')
             if self.p(0.5):
                 return Assign(x, Call('configuration_data', []))
-            return Assign(x, Call('configuration_data', [Dict([('ki', Int(self.r.randint(0, 9))), ('ks', Str(self.pick(STRS)))])]))
+            return Assign(x, Call('configuration_data', [Dict([('ki', Int(self.r.randint(0, 9))), ('ks', Str(self.pick([x for x in STRS if x])))])]))
         v = self.pick(cv)
         if c < 0.2:
             x = self.pick(['c', 'o', 'c2'])
-            self.types[x] = 'cfg'
+            self.define(x, 'cfg')
             return Assign(x, Id(v))
         if c < 0.3 and len(cv) > 1:
             return ExprS(Meth(Id(v), 'merge_from', [Id(self.pick(cv))]))
@@ -345,7 +360,7 @@ class Gen:
         if kind == 'ki':
             return ExprS(Meth(Id(v), 'set', [Str('ki'), self.dis_expr() if val_dis else self.int_expr()]))
         if kind == 'ks':
-            args = [Str('ks'), self.dis_expr() if val_dis else Str(self.pick(STRS + ['"quoted"', '"half']))]
+            args = [Str('ks'), self.dis_expr() if val_dis else Str('' if self.p(0.04) else self.pick([x for x in STRS if x] + ['"quoted"', '"half']))]
             if self.p(0.2):
                 args.append(Kw('description', Str('a comment')))
             return ExprS(Meth(Id(v), 'set', args))
@@ -365,7 +380,7 @@ class Gen:
         c = self.r.random()
         if not ev or c < 0.12:
             x = self.pick(['e', 'g'])
-            self.types[x] = 'env'
+            self.define(x, 'env')
             form = self.r.random()
             kws = []
             if self.p(0.4):
@@ -383,7 +398,7 @@ class Gen:
         v = self.pick(ev)
         if c < 0.22:
             x = self.pick(['e', 'g', 'e2'])
-            self.types[x] = 'env'
+            self.define(x, 'env')
             return Assign(x, Id(v))
         if c < 0.3:
             return ExprS(Meth(Id(v), 'unset', [Str(self.pick(ENV_NAMES))]))
@@ -399,22 +414,23 @@ class Gen:
     def feat_stmt(self) -> Node:
         fv = self.vars_of('feat')
         c = self.r.random()
-        if not fv or c < 0.2:
-            x = self.pick(['f', 'h'])
-            self.types[x] = 'feat'
-            return Assign(x, Id(self.pick(FEATS + (fv or []))))
-        v = self.pick(fv)
         x = self.pick(['f', 'h'])
-        self.types[x] = 'feat'
-        if c < 0.6:
-            return Assign(x, Meth(Id(v), self.pick(['disable_auto_if', 'enable_auto_if']), [self.bool_expr()]))
-        if c < 0.7:
-            return Assign(x, Meth(Id(v), 'require', [Bool(True)]))
-        m = self.pick(['require', 'enable_if', 'disable_if'])
-        args: T.List[Node] = [self.dis_expr() if self.p(0.08) else self.bool_expr()]
-        if self.p(0.6):
-            args.append(Kw('error_message', Str(self.pick(EMSGS))))
-        return Assign(x, Meth(Id(v), m, args))
+        if not fv or c < 0.2:
+            e = Id(self.pick(FEATS + (fv or [])))
+        else:
+            v = self.pick(fv)
+            if c < 0.6:
+                e = Meth(Id(v), self.pick(['disable_auto_if', 'enable_auto_if']), [self.bool_expr()])
+            elif c < 0.7:
+                e = Meth(Id(v), 'require', [Bool(True)])
+            else:
+                m = self.pick(['require', 'enable_if', 'disable_if'])
+                args: T.List[Node] = [self.dis_expr() if self.p(0.08) else self.bool_expr()]
+                if self.p(0.6):
+                    args.append(Kw('error_message', Str(self.pick(EMSGS))))
+                e = Meth(Id(v), m, args)
+        self.define(x, 'feat')       # only now: the initialiser must not mention the name it introduces
+        return Assign(x, e)
 
     def var_stmt(self) -> Node:
         c = self.r.random()
@@ -422,32 +438,37 @@ class Gen:
             ty = self.pick(['int', 'str', 'bool'])
             name = self.pick(['sv1', 'sv2'])
             if self.p(0.25):
-                self.types[name] = 'any'
-                return ExprS(Call('set_variable', [Str(name), self.dis_expr()]))
-            self.types[name] = ty if self.types.get(name, ty) == ty and self.depth == 0 else 'any'
-            return ExprS(Call('set_variable', [Str(name), self.scalar(ty)]))
+                e = self.dis_expr()
+                self.define(name, 'any')
+                return ExprS(Call('set_variable', [Str(name), e]))
+            e = self.scalar(ty)
+            self.define(name, ty)
+            return ExprS(Call('set_variable', [Str(name), e]))
         if c < 0.75:
             x = self.pick(['gv1', 'gv2'])
-            self.types[x] = 'any'
             src = self.pick(self.vars_of('int', 'str', 'bool', 'any', 'dis') + ['nosuch'])
             args: T.List[Node] = [Str(src)]
-            if self.p(0.7):
+            if self.p(0.93 if src == 'nosuch' else 0.6):
                 args.append(self.dis_expr() if self.p(0.3) else self.scalar(self.pick(['int', 'str'])))
             if self.p(0.08):
                 args[0] = Id(self.pick(self.vars_of('dis') or ['d']))
+            self.define(x, 'any')
             return Assign(x, Call('get_variable', args))
         if c < 0.85:
             cand = self.vars_of('any', 'int', 'str', 'bool')
             if cand and self.depth == 0:
                 x = self.pick(cand)
                 del self.types[x]
+                self.scopes[0].discard(x)
                 return ExprS(Call('unset_variable', [Str(x)]))
         return ExprS(Call('assert', [self.dis_expr() if self.p(0.3) else (Bool(True) if self.p(0.8) else self.bool_expr()), Str('assertion text')]))
 
     def block(self) -> T.List[Node]:
         self.depth += 1
+        self.push()
         n = self.r.randint(1, 3)
         out = [self.stmt() for _ in range(n)]
+        self.pop()
         self.depth -= 1
         return out
 
@@ -469,10 +490,15 @@ class Gen:
         items: T.List[Node] = [self.scalar(ty) for _ in range(self.r.randint(0, 3))]
         if self.p(0.3):
             items.insert(self.r.randrange(len(items) + 1), self.pick([Id('d'), Call('disabler', [])]))
-        self.types[x] = 'any'
         self.depth += 1
+        self.push()
+        if x in self.types:
+            self.types[x] = 'any'
+        else:
+            self.define(x, 'any')
         body = [Msg(self.newtag(), Call('is_disabler', [Id(x)]))] if self.p(0.6) else []
         body += [self.stmt() for _ in range(self.r.randint(0, 2))]
+        self.pop()
         self.depth -= 1
         return Foreach(x, Arr(items), body)
 
@@ -510,16 +536,16 @@ class Gen:
 def program(rnd: random.Random) -> T.List[Node]:
     g = Gen(rnd)
     prog: T.List[Node] = [Assign('d', Call('disabler', []))]
-    g.types['d'] = 'dis'
+    g.define('d', 'dis')
     focus = rnd.random()
     if focus < 0.5:
         prog.append(Assign('c', Call('configuration_data', [])))
-        g.types['c'] = 'cfg'
+        g.define('c', 'cfg')
     if focus > 0.3:
         prog.append(Assign('e', Call('environment', [])))
-        g.types['e'] = 'env'
+        g.define('e', 'env')
     prog.append(Assign('f', Id(rnd.choice(FEATS))))
-    g.types['f'] = 'feat'
+    g.define('f', 'feat')
     n = rnd.randint(8, 30)
     while len(prog) < n:
         prog.append(g.stmt())
